@@ -80,8 +80,13 @@ class FakeCtx:
         return p
 
 
-def execute(kind, cname, late_at, cancel_at, child_delay=0):
-    """-> observation dict.  cancel_at None = just measure the default run"""
+def execute(kind, cname, late_at, cancel_at, child_delay=0, latency=0,
+            via_run=False):
+    """-> observation dict.  cancel_at None = just measure the default run.
+    latency: AL state transitions take that many status polls.
+    via_run (fast groups): the group is started inside `async with
+    ec.run():` and 'cancelling' means leaving that block, which cancels the
+    registered groups through FastSyncGroup.cancel()."""
     conf = CONFIGS[cname]
     sk = None
     obs = dict(kind=kind, steps=0, cycles=0, cancelled_running=False)
@@ -102,7 +107,21 @@ def execute(kind, cname, late_at, cancel_at, child_delay=0):
                                             w.ec.MAX_PROGS)
         terms = []
         for i, (isz, osz, fmmu, rw) in enumerate(conf):
-            terms.append(w.add_terminal(isz, osz, use_fmmu=fmmu))
+            t = w.add_terminal(isz, osz, use_fmmu=fmmu)
+            terms.append(t)
+            if latency:
+                def poll(model, left=[latency]):
+                    # a transition takes `latency` polls; the countdown
+                    # restarts with every new request
+                    if getattr(model, "_lat_for", None) != model.al_requested:
+                        model._lat_for = model.al_requested
+                        model._lat = latency
+                    if model._lat > 0:
+                        model._lat -= 1
+                        return "stay"
+                    model._lat_for = None
+                    return "reach"
+                t.model.al_poll = poll
         dev = Dev({t: c[3] for t, c in zip(terms, conf)})
         if kind == "slow":
             sg = SyncGroup(w.ec, [dev])
@@ -123,7 +142,40 @@ def execute(kind, cname, late_at, cancel_at, child_delay=0):
                 cycles[0] += 1
                 return orig(data)
             sg.update_devices = update_devices
-        task = sg.start()
+        leave = None
+        if via_run:
+            import ebpfcat.xdp as xdpmod
+            saved["xdp.if_nametoindex"] = xdpmod.if_nametoindex
+            xdpmod.if_nametoindex = lambda name: 7
+            saved["XDP._netlink"] = xdpmod.XDP._netlink
+
+            async def _netlink(self, ifindex, fd, flags):
+                return None
+            xdpmod.XDP._netlink = _netlink
+            saved["connect"] = ecat.SimpleEtherCat.connect
+
+            async def connect(self):
+                return None
+            ecat.SimpleEtherCat.connect = connect
+            leave = asyncio.get_event_loop().create_future()
+            started = []
+
+            async def outer():
+                async with w.ec.run():
+                    started.append(sg.start())
+                    await leave
+            outer_task = asyncio.ensure_future(outer())
+            for _ in range(50):
+                if started or outer_task.done():
+                    break
+                w.loop.run_once()
+            if not started:
+                raise core.Internal("ec.run() did not start: %r"
+                                    % (outer_task.exception()
+                                       if outer_task.done() else "pending"))
+            task = started[0]
+        else:
+            task = sg.start()
         index = [None]
         cyclic_seen = [0]
         child_exit_in = [None]
@@ -133,7 +185,10 @@ def execute(kind, cname, late_at, cancel_at, child_delay=0):
             if cancel_at is not None and step == cancel_at and not cancelled:
                 cancelled = True
                 obs["cancelled_running"] = not task.done()
-                task.cancel()
+                if leave is not None:
+                    leave.set_result(None)
+                else:
+                    task.cancel()
             if cancel_at is None and (cycles[0] >= CYCLES or
                                       (kind == "process" and step > 12)):
                 break
@@ -207,6 +262,14 @@ def execute(kind, cname, late_at, cancel_at, child_delay=0):
         for k, v in saved.items():
             if k == "pidfd_open":
                 os.pidfd_open = v
+            elif k == "xdp.if_nametoindex":
+                import ebpfcat.xdp as xdpmod
+                xdpmod.if_nametoindex = v
+            elif k == "XDP._netlink":
+                import ebpfcat.xdp as xdpmod
+                xdpmod.XDP._netlink = v
+            elif k == "connect":
+                ecat.SimpleEtherCat.connect = v
             else:
                 setattr(ecat, k, v)
         if sk is not None:
@@ -273,9 +336,10 @@ def judge(case, obs, res):
 
 
 def work(item, res):
-    kind, cname, late_at = item
-    base = dict(kind=kind, config=cname, late_at=late_at)
-    ref = execute(kind, cname, late_at, None)
+    kind, cname, late_at, latency, via_run = item
+    base = dict(kind=kind, config=cname, late_at=late_at, latency=latency,
+                via_run=via_run)
+    ref = execute(kind, cname, late_at, None, 0, latency, via_run)
     judge(dict(base, cancel_at=None), ref, res)
     n = ref["steps"]
     res.count("evaluations")
@@ -283,7 +347,7 @@ def work(item, res):
     delays = (0, 2) if kind == "process" else (0,)
     for k in range(0, n + 1):
         for delay in delays:
-            obs = execute(kind, cname, late_at, k, delay)
+            obs = execute(kind, cname, late_at, k, delay, latency, via_run)
             res.count("evaluations")
             res.count("transitions", obs["steps"])
             case = dict(base, cancel_at=k, child_delay=delay)
@@ -293,8 +357,8 @@ def work(item, res):
             res.outcomes.add((kind, obs["outcome"][:2]))
             judge(case, obs, res)
     res.count(f"cancellation_points_{kind}", reached)
-    a = execute(kind, cname, late_at, n // 2)
-    b = execute(kind, cname, late_at, n // 2)
+    a = execute(kind, cname, late_at, n // 2, 0, latency, via_run)
+    b = execute(kind, cname, late_at, n // 2, 0, latency, via_run)
     if a != b:
         raise core.Internal("non-deterministic execution")
 
@@ -309,7 +373,13 @@ def run(ctx):
             lates = [None] if kind == "process" else \
                 ([None, 1] if ctx.quick else [None, 0, 1, 2])
             for late_at in lates:
-                items.append((kind, cname, late_at))
+                items.append((kind, cname, late_at, 0, False))
+            if kind != "process":
+                # slow terminals: a state change takes two status polls
+                items.append((kind, cname, None, 2, False))
+            if kind == "fast" and cname in ("one-fmmu-rw", "two-fmmu-rw"):
+                # cancelled by leaving `async with ec.run():`
+                items.append((kind, cname, None, 0, True))
     res = core.pmap(ctx, work, items, chunk=1)
     # merge the per-item dicts that pmap overwrote
     res.cov["states"] = len(res.nontrivial)
@@ -337,7 +407,8 @@ def replay(ctx, rep):
     res = core.Result()
     c = rep["case"]
     obs = execute(c["kind"], c["config"], c["late_at"], c["cancel_at"],
-                  c.get("child_delay", 0))
+                  c.get("child_delay", 0), c.get("latency", 0),
+                  c.get("via_run", False))
     print(obs)
     judge(c, obs, res)
     return res.violations
